@@ -186,7 +186,8 @@ fn fraction_to_nanosec(fraction: u32) -> u32 {
 }
 
 fn nanosec_to_fraction(nanosec: u32) -> u32 {
-    (((nanosec as u64 * (1u64 << 32)) + 500_000_000) / 1_000_000_000) as u32
+    // Rounded up, so that fraction_to_nanosec (which rounds down) returns the same nanoseconds
+    (((nanosec as u64 * (1u64 << 32)) + 999_999_999) / 1_000_000_000) as u32
 }
 
 #[allow(dead_code)]
